@@ -69,6 +69,10 @@ pub struct Plan {
     /// damage applied before `resolve`
     pub pre: Option<(Option<usize>, Mutation)>,
     pub ops: Vec<Op>,
+    /// non-zero: some files of the directory are symbolic links to regular files kept elsewhere (which ones is drawn
+    /// from this seed)
+    #[serde(default)]
+    pub links: u64,
 }
 
 // ------------------------------------------------------------------------------------------------
@@ -291,7 +295,13 @@ impl Engine for C05 {
                 }
             }
         }
-        let mut p = Plan { versions: names, states, edges, malform: None, stray: w.chance(25), create_order: if s.chance(15) { 0 } else { s.next() | 1 }, pre: None, ops: vec![] };
+        let mut p = Plan { versions: names, states, edges, malform: None, stray: w.chance(25), create_order: if s.chance(15) { 0 } else { s.next() | 1 }, pre: None, ops: vec![], links: 0 };
+        {
+            let mut l = rng.split("links");
+            if l.chance(15) {
+                p.links = l.next() | 1;
+            }
+        }
         // malformed directories in ~25 % of the runs
         if w.chance(25) {
             p.malform = Some(match w.below(5) {
@@ -302,7 +312,9 @@ impl Engine for C05 {
                     let e = &p.edges[w.usize(n - 1)];
                     Malform::Cycle { from: e.to, to: e.from }
                 }
-                3 => Malform::Unreachable { a: "island-a".into(), b: "island-b".into() },
+                // an island; half of the time its edge leads INTO a reachable version (which thereby has a second,
+                // dead parent: queries for it must not care, whatever the listing order - missed seeded change C05-8)
+                3 => Malform::Unreachable { a: "island-a".into(), b: if p.versions.len() >= 2 && w.chance(50) { p.versions[1 + w.usize(p.versions.len() - 1)].clone() } else { "island-b".into() } },
                 _ => match p.versions.iter().position(|v| v.contains('~')) {
                     Some(i) if i > 0 => Malform::Collision { plain_of: i },
                     _ => Malform::Unreachable { a: "island-a".into(), b: "island-b~island-s".into() },
@@ -361,6 +373,12 @@ impl Engine for C05 {
         let orders: Vec<u64> = if matches!(p.malform, Some(Malform::Collision { .. })) {
             // the claim under test is order independence: run the scenario under two creation orders
             vec![p.create_order, !p.create_order | 1, 0]
+        } else if p.edges.iter().all(|e| e.perturb.is_none()) && (p.edges.len() + 1 == p.versions.len() || (p.pre.is_none() && !p.ops.iter().any(|o| matches!(o, Op::Mutate { .. })))) {
+            // every scenario under a second creation (= listing) order: the answers must not move. Not for diamonds
+            // whose sides were made NOT to commute (a perturbed edge) and not for diamonds with a damaged file (one side
+            // fails, the other does not): there the property's "the path" is ambiguous, any shortest path is
+            // accepted, and which one is taken may follow the listing
+            vec![p.create_order, !p.create_order | 1]
         } else {
             vec![p.create_order]
         };
@@ -374,8 +392,10 @@ impl Engine for C05 {
             }
             answers.push(a);
         }
-        if answers.len() > 1 {
+        if answers.len() > 2 {
             st.probe("collision_scenarios");
+        }
+        if answers.len() > 1 {
             for a in &answers[1..] {
                 if a != &answers[0] && out.is_empty() {
                     let k = a.iter().zip(&answers[0]).position(|(x, y)| x != y).unwrap_or(0);
@@ -406,6 +426,11 @@ impl Engine for C05 {
         if p.create_order != 0 {
             let mut q = p.clone();
             q.create_order = 0;
+            c.push(q);
+        }
+        if p.links != 0 {
+            let mut q = p.clone();
+            q.links = 0;
             c.push(q);
         }
         for i in 0..p.ops.len() {
@@ -502,7 +527,7 @@ impl Engine for C05 {
         json!({"real": ["VersionGraph::{resolve, get, apply_diffs} from /repo/src/version_graph.rs (#[path] module)", "quill::tiny_v2::read_file", "quill::tiny_v2_diff::read_file", "MappingsDiff::apply_to", "extend_/contract_inner_class_names", "petgraph astar", "std::fs::read_dir"], "stub": ["directory content, creation order and damage (SimDir on tmpfs)"], "reference": ["c05::{expected, extend_ref, contract_ref, shortest_paths}", "refdiff", "refmap"]})
     }
     fn expected_probes(&self) -> Vec<&'static str> {
-        vec!["listing_order_not_sorted", "diamond", "split_name_queried_by_second_half", "malformed.rejected", "query_under_damage", "query_after_heal", "unknown_version_rejected", "collision_scenarios", "island_query_rejected", "stale_ok_under_damage", "err_under_damage"]
+        vec!["listing_order_not_sorted", "diamond", "split_name_queried_by_second_half", "malformed.rejected", "query_under_damage", "query_after_heal", "unknown_version_rejected", "collision_scenarios", "island_query_rejected", "file_is_a_symlink", "stale_ok_under_damage", "err_under_damage"]
     }
 }
 
@@ -596,7 +621,15 @@ fn run_once(p: &Plan, create_order: u64, st: &mut RunStats, answers: &mut Vec<St
         Rng::new(create_order).shuffle(&mut create);
     }
     for (n, b) in &create {
-        dir.create(n, b);
+        if p.links != 0 && (crate::rng::fnv(n.as_bytes()) ^ p.links) % 3 == 0 {
+            dir.create_link(n, b);
+            if count {
+                st.probe("file_is_a_symlink");
+                st.nontrivial = true;
+            }
+        } else {
+            dir.create(n, b);
+        }
     }
     let listing = dir.listing();
     let mut sorted = listing.clone();
@@ -696,7 +729,9 @@ fn run_once(p: &Plan, create_order: u64, st: &mut RunStats, answers: &mut Vec<St
     let island: Vec<String> = match &p.malform {
         Some(Malform::Unreachable { a, b }) => {
             let mut v = vec![a.clone()];
-            v.extend(b.split('~').map(|s| s.to_string()));
+            if !p.versions.contains(b) {
+                v.extend(b.split('~').map(|s| s.to_string()));
+            }
             v
         }
         _ => vec![],
